@@ -135,6 +135,22 @@ func (e *Env) eval(v ssa.Value, fr *frame, depth int, busy map[ssa.Value]bool) (
 			return Val{}, err
 		}
 		return binop(x, a, b)
+	case *ssa.UnOp:
+		// -x: linear (two's complement arithmetic keeps −x mod 4 exact)
+		if x.Op == token.SUB {
+			a, err := e.eval(x.X, fr, depth, busy)
+			if err != nil {
+				return Val{}, err
+			}
+			if a.Div4 {
+				return Val{}, &Err{x, "negation of a quotient"}
+			}
+			r := Val{K: -a.K}
+			for i := range r.T {
+				r.T[i] = -a.T[i]
+			}
+			return r, nil
+		}
 	case *ssa.Phi:
 		return e.evalPhi(x, fr, depth, busy)
 	case *ssa.Call:
